@@ -27,3 +27,13 @@ void h_threaded_callback(void) {
   }
   REACH("threaded callback returns");
 }
+/* C07: the completion of a thread / subprocess wait may resume the fiber only if that wait is still the fiber's current one.
+ * g_gen_at_wait is the ghost generation the fiber had when janet_ev_threaded_await registered the wait. */
+uint32_t g_gen_at_wait; int g_sched2;
+void sched_gen(JanetFiber *f, Janet v) { __CPROVER_assert(f->sched_id == g_gen_at_wait, "C07 thread completion: the fiber is resumed only if the abandoned-or-not wait it registered is still current (generation unchanged since the wait began)"); g_sched2++; }
+void h_threaded_callback_current(void) {
+  JanetEVGenericMessage m; m.tag = nd_int(); m.argi = nd_int(); m.argp = nd_ptr(); m.fiber = &g_f;
+  g_gen_at_wait = nd_u32(); g_f.sched_id = nd_u32(); g_can = 1; g_sched2 = 0;
+  janet_ev_default_threaded_callback(m);
+  REACH("threaded callback returns");
+}
